@@ -1,6 +1,6 @@
 (* C03 — a task resumes only when all it awaits is done; start order; exactly once per yield.
    Statements only; proofs in proofs/ProgProofs.v, proofs/MachineC02.v, proofs/MachineSteps.v, proofs/MachineC02S.v and
-   proofs/MachineC03T.v, proofs/MachineC03L.v.
+   proofs/MachineC03T.v, proofs/MachineC03L.v, proofs/MachineC03P.v.
    Proved: (1) the dependencies derived from a yielded structure are exactly its futures, in reverse
    written order for list/tuple structures (with the LIFO task stack: tasks first scheduled together
    start in the order written); (2) on the machine, for tree programs, the scheduler resumes a task
@@ -61,14 +61,35 @@
    so only the runaway guard's RuntimeError can unwind through asynq's frames, and the hypothesis "the guard has not
    fired before step n" (forall k < n, guard_fires P (run P k c0) = false; guard_fires is the boolean test at the
    head of the _execute loop) is a decidable condition on the run.
-   NOT proved (correspondence, monitors and the watchdog only): TERMINATION IN GENERAL - that for every tree
-   program WITH batch items there is a fuel at which the run is done.  Items (i) "a flush makes progress" and
-   (iv) "syntactic criterion for the no-flush hypothesis" of the earlier list are now proved (7b, 7c).  Still
-   missing: (ii) the LATER passes terminate (after a flush the stack entries are suspended tasks rather than
-   fresh ones; the induction of (6b) is over the program of a freshly started task), and (iii) a measure
-   bounding the number of passes (e.g. the number of uncomputed allocated futures plus the remaining cost along
-   the actual path; (7b) shows each flush strictly increases the set of computed futures, but later passes
-   also allocate new futures).  Also not proved: never-started for never-awaited tasks,
+   (8) LIVENESS, third part (proofs/MachineC03L.v part 4, proofs/MachineC03P.v; same setting): (a) EVERY _execute
+   pass terminates, not only the first one: from the head of wait_for with the awaited task uncomputed (start of
+   the computation, or right after a flush) the machine reaches MAfterExec with an empty task stack after
+   finitely many steps (C03_every_pass_terminates_tree).  Proof: induction over the creation numbers
+   (dependencies are younger, bound = top_next at the start of the pass); a top entry that is not a first visit
+   is popped by the lemmas of (6b) (C03_top_entry_popped_unless_first_visit_tree: computed / item / lazy /
+   blocked-and-scheduled entries are popped, an unblocked suspended task is resumed and runs with everything it
+   starts until it completes or is stuck again); a first visit pushes the uncomputed dependencies, whose sets of
+   uncomputed descendants are pairwise disjoint (C03_sibling_subtrees_disjoint, from deps_ok.dk_disj), so dealing
+   with one sibling leaves the others' subtrees as they were.  (b) after a flush the next pass starts
+   (C03_next_pass_starts_tree).  (c) the number of flushes is bounded relative to the number of futures created:
+   while the ids stay below N at most N flush points occur (C03_flushes_bounded_tree; each flush computes a
+   future that was not computed, computed futures stay computed).  (d) TERMINATION with ONE hypothesis besides
+   the guard: if the number of futures the run creates is bounded (forall n, top_next <= N) then there is a fuel
+   at which the run is done with the sequential outcome (C03_terminates_if_allocation_bounded_tree; the general
+   reduction is C03_termination_reduced_tree).  C03_termination_demo_with_items: for c01_demo (batch items of two
+   kinds, needs flushes) the guard hypothesis and the bound (10 futures) are proved for every fuel and the
+   theorem instantiates.
+   NOT proved (correspondence, monitors and the watchdog only): UNCONDITIONAL termination of tree programs with
+   batch items.  Of the earlier list, (i) flush progress, (ii) termination of the later passes and (iv) the
+   syntactic no-flush criterion are now proved (7b, 8a, 7c).  Still missing is (iii) only: that the run of a tree
+   program creates boundedly many futures - equivalently a bound on the number of passes.  The intended proof: a
+   function nf : prog -> nat defined by structural recursion along Seq.eval (nf (Yield s k) = futures of the
+   leaves of s + nf (k (unwrap leaf_out s)), which is a natural number because the outcomes fed to the
+   continuations are the specified ones), and the invariant "top_next + sum over the uncomputed tasks of nf of
+   their remaining program (continuation applied to the specified outcome of what they yielded; for the running
+   task the program in MRun) <= 1 + nf p": only Yield changes it (the created futures move from the sum to
+   top_next).  This needs a sum over the heap maintained through every transition and through the nested
+   recursion of inst, which was not done.  Also not proved: never-started for never-awaited tasks,
    no-step-after-done for programs outside stree (stored handles, value() on existing futures) without the
    guard hypothesis, and after a computation that was cut off by the fuel or by the runaway guard. *)
 From Asynq Require Import Machine Seq proofs.ProgProofs proofs.MachineC08 proofs.MachineC01 proofs.MachineC02
@@ -412,3 +433,104 @@ Theorem C03_terminates_without_flush_tree_guard : forall P p,
   exists n o, c_mode (run P n (start h s1)) = MDone o /\ o = eval p.
 Proof. exact terminates_without_flush_tree_guard. Qed.
 Print Assumptions C03_terminates_without_flush_tree_guard.
+
+(* ==== towards general termination (proofs/MachineC03L.v, part 4) ==== *)
+
+(* relative bound on the number of flushes: while the ids of the futures created stay below N, at most N flush
+   points (a pass ended, the awaited task is uncomputed) occur among the first n configurations *)
+Theorem C03_flushes_bounded_tree : forall P p N n,
+  pointwise P -> tree p ->
+  let h := fst (create [] (FTask p) (st0 P)) in
+  let s1 := snd (create [] (FTask p) (st0 P)) in
+  (forall n, no_unwind P n (start h s1)) ->
+  (forall k, (k <= n)%nat -> (top_next (c_st (run P k (start h s1))) <= Z.of_nat N)%Z) ->
+  (length (filter (fun k => match c_mode (run P k (start h s1)) with
+                            | MAfterExec => negb (computed h (c_st (run P k (start h s1))))
+                            | _ => false end) (seq 0 n)) <= N)%nat.
+Proof. exact flushes_bounded_tree. Qed.
+Print Assumptions C03_flushes_bounded_tree.
+
+(* TERMINATION REDUCED to the two missing facts: if every pass that starts with the awaited task uncomputed ends
+   and the number of futures ever created is bounded, the computation is done with the sequential outcome *)
+Theorem C03_termination_reduced_tree : forall P p N,
+  pointwise P -> tree p ->
+  let h := fst (create [] (FTask p) (st0 P)) in
+  let s1 := snd (create [] (FTask p) (st0 P)) in
+  (forall n, no_unwind P n (start h s1)) ->
+  (forall n, c_mode (run P n (start h s1)) = MWaitHead -> computed h (c_st (run P n (start h s1))) = false ->
+     exists m, c_mode (run P (n + m) (start h s1)) = MAfterExec) ->
+  (forall n, (top_next (c_st (run P n (start h s1))) <= Z.of_nat N)%Z) ->
+  exists n, c_mode (run P n (start h s1)) = MDone (eval p).
+Proof. exact termination_reduced_tree. Qed.
+Print Assumptions C03_termination_reduced_tree.
+
+(* the next pass starts after a flush *)
+Theorem C03_next_pass_starts_tree : forall P p n,
+  pointwise P -> tree p ->
+  let h := fst (create [] (FTask p) (st0 P)) in
+  let s1 := snd (create [] (FTask p) (st0 P)) in
+  (forall n, no_unwind P n (start h s1)) ->
+  c_mode (run P n (start h s1)) = MWaitHead -> computed h (c_st (run P n (start h s1))) = false ->
+  run P (n + 1) (start h s1) = mkC MExecLoop [FExec 0; FWait h; FTop] (with_tasks (c_st (run P n (start h s1))) [h]).
+Proof. exact next_pass_starts_tree. Qed.
+Print Assumptions C03_next_pass_starts_tree.
+
+(* in ANY pass the top stack entry is popped after finitely many steps unless it is a first visit *)
+Theorem C03_top_entry_popped_unless_first_visit_tree : forall P p n s x ts,
+  pointwise P -> tree p ->
+  let h := fst (create [] (FTask p) (st0 P)) in
+  let s1 := snd (create [] (FTask p) (st0 P)) in
+  (forall n, no_unwind P n (start h s1)) ->
+  run P n (start h s1) = mkC MExecLoop [FExec 0; FWait h; FTop] s -> tasks s = x :: ts ->
+  (forall tk, get x s = Some (mkFut None (KTask tk)) -> is_blocked tk s = true -> tk_ds tk = true) ->
+  exists m s', run P (n + m) (start h s1) = mkC MExecLoop [FExec 0; FWait h; FTop] s' /\ tasks s' = ts /\
+    forall d, d <> x -> get d s <> None -> get d s' = get d s.
+Proof. exact top_entry_popped_unless_first_visit_tree. Qed.
+Print Assumptions C03_top_entry_popped_unless_first_visit_tree.
+
+(* ==== EVERY pass terminates (proofs/MachineC03P.v) ==== *)
+From Asynq Require Import proofs.MachineC03P.
+
+(* the uncomputed descendants of two distinct uncomputed dependencies of an uncomputed task are disjoint
+   (ub s d z: z is below d through dependency lists of uncomputed tasks, along uncomputed dependencies) *)
+Theorem C03_sibling_subtrees_disjoint : forall r s x tkx d1 d2, deps_younger s -> deps_ok r s ->
+  get x s = Some (mkFut None (KTask tkx)) -> In d1 (tk_deps tkx) -> In d2 (tk_deps tkx) ->
+  computed d1 s = false -> computed d2 s = false -> d1 <> d2 ->
+  forall z, ub s d1 z -> ub s d2 z -> False.
+Proof. exact ub_disjoint. Qed.
+Print Assumptions C03_sibling_subtrees_disjoint.
+
+(* EVERY _execute pass terminates: from the head of wait_for with the awaited task uncomputed - the start of
+   the first pass or the configuration right after a flush - the machine reaches the end of the pass
+   (MAfterExec) after finitely many steps, with an empty task stack *)
+Theorem C03_every_pass_terminates_tree : forall P p n,
+  pointwise P -> tree p ->
+  let h := fst (create [] (FTask p) (st0 P)) in
+  let s1 := snd (create [] (FTask p) (st0 P)) in
+  (forall n, no_unwind P n (start h s1)) ->
+  c_mode (run P n (start h s1)) = MWaitHead -> computed h (c_st (run P n (start h s1))) = false ->
+  exists m, c_mode (run P (n + m) (start h s1)) = MAfterExec /\ tasks (c_st (run P (n + m) (start h s1))) = [].
+Proof. exact every_pass_terminates_tree. Qed.
+Print Assumptions C03_every_pass_terminates_tree.
+
+(* TERMINATION with one hypothesis left besides the guard: the number of futures created is bounded *)
+Theorem C03_terminates_if_allocation_bounded_tree : forall P p N,
+  pointwise P -> tree p ->
+  let h := fst (create [] (FTask p) (st0 P)) in
+  let s1 := snd (create [] (FTask p) (st0 P)) in
+  (forall n, no_unwind P n (start h s1)) ->
+  (forall n, (top_next (c_st (run P n (start h s1))) <= Z.of_nat N)%Z) ->
+  exists n, c_mode (run P n (start h s1)) = MDone (eval p).
+Proof. exact terminates_if_allocation_bounded_tree. Qed.
+Print Assumptions C03_terminates_if_allocation_bounded_tree.
+
+(* non-vacuity for a program WITH batch items: c01_demo needs flushes (C03_termination_demos); the guard
+   hypothesis and the allocation bound hold for EVERY fuel, and the theorem gives termination *)
+Theorem C03_termination_demo_with_items :
+  let P := mkP [] 1000 false [] in
+  let h := fst (create [] (FTask c01_demo) (st0 P)) in
+  let s1 := snd (create [] (FTask c01_demo) (st0 P)) in
+  (forall n, no_unwind P n (start h s1)) /\ (forall n, (top_next (c_st (run P n (start h s1))) <= Z.of_nat 10)%Z) /\
+  exists n, c_mode (run P n (start h s1)) = MDone (eval c01_demo).
+Proof. exact c01_demo_terminates. Qed.
+Print Assumptions C03_termination_demo_with_items.
